@@ -92,8 +92,13 @@ def finish(prop, tier, seed, reg, keys, presults, py_results, known, wall):
     py_viol = [p for p in py_results if p.get("verdict") == "refuted" and not p.get("known_finding")]
     py_known = [p for p in py_results if p.get("verdict") == "refuted" and p.get("known_finding")]
     py_err = [p for p in py_results if p.get("verdict") == "error"]
-    total_obl = len(obligations) + len(py_results)
-    discharged = sum(1 for o in obligations.values() if not o["sat"] and not o["unknown"]) + sum(1 for p in py_results if p.get("verdict") == "held")
+    # obligations / discharged count what is decided for all inputs: P (VC unsat on every path) and X (complete
+    # enumeration of a finite domain). Bounded layers (B) are reported next to them and never counted as discharged.
+    decided_layers = [p for p in py_results if p.get("kind") != "B"]
+    bounded_layers = [p for p in py_results if p.get("kind") == "B"]
+    total_obl = len(obligations) + len(decided_layers)
+    discharged = sum(1 for o in obligations.values() if not o["sat"] and not o["unknown"]) + sum(1 for p in decided_layers if p.get("verdict") == "held" or p.get("known_finding"))
+    bounded_held = sum(1 for p in bounded_layers if p.get("verdict") == "held" or p.get("known_finding"))
 
     level = manifest_level(prop)
     samples = []
@@ -108,7 +113,8 @@ def finish(prop, tier, seed, reg, keys, presults, py_results, known, wall):
         f"P: {len(obligations)} named obligations generated from the real source of {len(functions)} function contracts "
         f"({nqueries} per-path SMT queries, back ends {backends}); "
         f"X/B layers: {[(p['name'], p['kind'], p.get('cases')) for p in py_results]}. "
-        "P = VC discharged unsat for all inputs; X = complete enumeration of a finite domain; B = bounded, never counted as proved."
+        "P = VC discharged unsat for all inputs; X = complete enumeration of a finite domain; B = bounded, never counted as proved "
+        "(obligations/discharged count P and X only; B layers are counted in bounded_checks; an obligation whose only counterexamples are a listed known finding counts as discharged modulo that finding and is named under assumptions)."
     )
     ev = dict(
         property_id=prop,
@@ -118,6 +124,8 @@ def finish(prop, tier, seed, reg, keys, presults, py_results, known, wall):
         coverage=dict(
             obligations=total_obl,
             discharged=discharged,
+            bounded_checks=len(bounded_layers),
+            bounded_checks_held=bounded_held,
             checker_cmd=f"./check {prop} --tier {tier}",
             trusted_base=trusted,
             explanation=explanation,
@@ -135,12 +143,13 @@ def finish(prop, tier, seed, reg, keys, presults, py_results, known, wall):
             backends=backends,
             solver_time_s=round(solver_time, 2),
         ),
-        assumptions=trusted + [f"known finding excluded from obligation {n}: {k}" for k, n in known_lines],
+        assumptions=trusted + [f"known finding excluded from obligation {n}: {k}" for k, n in known_lines] + [f"known finding excluded from layer {p['name']}: {p.get('known_finding')}" for p in py_known],
         wall_s=round(wall, 2),
         violations=len(violations) + len(py_viol),
     )
-    os.makedirs(os.path.join(VERIF, "evidence"), exist_ok=True)
-    with open(os.path.join(VERIF, "evidence", f"{prop}.json"), "w") as fh:
+    evdir = os.environ.get("VERIF_EVIDENCE_DIR") or os.path.join(VERIF, "evidence")
+    os.makedirs(evdir, exist_ok=True)
+    with open(os.path.join(evdir, f"{prop}.json"), "w") as fh:
         json.dump(ev, fh, indent=1, default=_default)
 
     # ---- verdict
@@ -153,7 +162,7 @@ def finish(prop, tier, seed, reg, keys, presults, py_results, known, wall):
             print(f"CHECKER-ERROR property={prop} layer={p['name']} {p.get('detail')}")
         for k in canary_bad:
             print(f"CHECKER-ERROR property={prop} contract={k} vacuous (precondition unsatisfiable or no feasible path)")
-    if total_obl == 0:
+    if total_obl + len(bounded_layers) == 0:
         print(f"CHECKER-ERROR property={prop} zero obligations generated")
         return 3
     for kf in known:
@@ -179,7 +188,7 @@ def finish(prop, tier, seed, reg, keys, presults, py_results, known, wall):
         for o in undecided:
             print(f"UNDECIDED property={prop} obligation={o['name']}")
         return 2
-    print(f"OK property={prop} tier={tier} obligations={total_obl} discharged={discharged} queries={nqueries} wall={wall:.1f}s")
+    print(f"OK property={prop} tier={tier} obligations={total_obl} discharged={discharged} bounded={bounded_held}/{len(bounded_layers)} queries={nqueries} wall={wall:.1f}s")
     return 0
 
 
